@@ -9,6 +9,7 @@ import (
 	"sort"
 	"strings"
 	"sync"
+	"time"
 
 	stackage "github.com/JesseCoretta/go-stackage"
 	"pgregory.net/rapid"
@@ -321,6 +322,10 @@ func runC11(c C11Case) (st Stats, err error) {
 	if after := Snapshot(root); after != before {
 		return st, violf("parallel/modified", "parallel queries changed the structure: %s", diffSnap(before, after))
 	}
+	if v := c11Rendezvous(len(progs)); v != nil {
+		return st, v
+	}
+	st.Class("parallel-rendezvous-inside-String")
 	st.Sub = len(progs)
 	st.Class("parallel")
 	if c.RO {
@@ -328,6 +333,100 @@ func runC11(c C11Case) (st Stats, err error) {
 	}
 	st.NonTrivial = depth >= 2 && nonDefault
 	return st, nil
+}
+
+// c11Gate / gateLeaf: a leaf whose String method keeps its caller inside the rendering until n callers are there
+// (or two seconds have passed): all n goroutines are then truly inside String() of the same structure at once, at
+// the deepest level - package-level state that adds up concurrent work would show in their answers.
+type c11Gate struct {
+	mu    sync.Mutex
+	armed bool
+	need  int
+	in    int
+	open  chan struct{}
+}
+
+type gateLeaf struct{ g *c11Gate }
+
+func (l gateLeaf) String() string {
+	g := l.g
+	g.mu.Lock()
+	if !g.armed {
+		g.mu.Unlock()
+		return "gate"
+	}
+	g.in++
+	if g.in == g.need {
+		close(g.open)
+	}
+	ch := g.open
+	g.mu.Unlock()
+	select {
+	case <-ch:
+	case <-time.After(2 * time.Second):
+	}
+	return "gate"
+}
+
+func c11Rendezvous(n int) *Violation {
+	if n < 2 {
+		return nil
+	}
+	gate := &c11Gate{}
+	var v *Violation
+	p := guard(func() {
+		// a chain of eight stacks, the gate at the bottom, ordinary values beside every link
+		cur := stackage.Or().Push("bottom", gateLeaf{gate})
+		for d := 0; d < 7; d++ {
+			k := stackage.And()
+			if d%2 == 1 {
+				k = stackage.Or()
+			}
+			cur = k.Push("side"+itoa(d), cur, "tail"+itoa(d))
+		}
+		root := cur
+		want := root.String()
+		wantU, _ := root.Unmarshal()
+		before := Snapshot(root)
+		gate.mu.Lock()
+		gate.armed, gate.need, gate.in, gate.open = true, n, 0, make(chan struct{})
+		gate.mu.Unlock()
+		got := make([]string, n)
+		var wg sync.WaitGroup
+		for g := 0; g < n; g++ {
+			wg.Add(1)
+			go func(g int) {
+				defer wg.Done()
+				defer func() {
+					if r := recover(); r != nil {
+						got[g] = "PANIC: " + fmt.Sprint(r)
+					}
+				}()
+				got[g] = root.String()
+			}(g)
+		}
+		wg.Wait()
+		gate.mu.Lock()
+		gate.armed = false
+		gate.mu.Unlock()
+		for g := range got {
+			if got[g] != want {
+				v = violf("parallel/rendezvous", "%d goroutines inside String() of one eight-level structure at the same time: goroutine %d got %q, in isolation %q", n, g, got[g], want)
+				return
+			}
+		}
+		if after := Snapshot(root); after != before {
+			v = violf("parallel/rendezvous/modified", "simultaneous String() calls changed the structure: %s", diffSnap(before, after))
+			return
+		}
+		if u, _ := root.Unmarshal(); fmt.Sprint(u) != fmt.Sprint(wantU) {
+			v = violf("parallel/rendezvous", "Unmarshal after the simultaneous String() calls differs: %v vs %v", u, wantU)
+		}
+	})
+	if p != "" {
+		return violf("parallel/rendezvous/panic", "%s", p)
+	}
+	return v
 }
 
 func c11ArgsAgain(m methodRef, call C17Call, t c11Target, twin any) ([]reflect.Value, string) {
